@@ -285,10 +285,14 @@ void    finish_rule (int mach, bool variable_trail_rule, int headcnt, int trailc
 	line_directive_out(NULL, infilename, linenum);
 
 	/* A continued ('|') action has no text of its own: open the quoted
-	 * action text only when some will follow.
+	 * action text only when some will follow.  When the rule is reduced
+	 * before the scanner has looked at its action (rules ending in '$'),
+	 * the scanner closes the quote itself if the action turns out to be
+	 * '|' (see rule_finished in scan.l).
 	 */
 	if (!continued_action)
 		add_action("[[");
+	rule_finished = true;
 }
 
 
